@@ -253,6 +253,38 @@ BUILT = {
              "finding: eleven repetition/shift/power/window builtins exhaust resources for counts >= 2^63.",
         technique="TLA+ protocol automaton (Outcome) + TLC model checking with session replay + exhaustive builtin x "
                   "boundary-argument sweep and fault-injected statements validated by TLC trace validation"),
+    "C15": dict(
+        cat="model_checking", design="DESIGN.md §4 C15",
+        text="The lexer is specified as a deterministic automaton over character classes with exact BigNum denotations "
+             "for every number, string, bytes, raw and format literal, including a correctly rounded float function "
+             "cross-checked against NumTower. TLC explores every string up to the stated bounds over "
+             "one-representative-per-class alphabets (full alphabet to length 3, numeric and string-literal "
+             "sub-alphabets deeper), checks totality, progress and well-formedness, and every string is replayed in "
+             "the interpreter: lex tokens and payloads equal, parse outcome as predicted, one-literal programs evaluate "
+             "to the denoted value. A seeded driver adds re-concretised class members, mutated corpus programs, token "
+             "soups, unbalanced delimiters, runaway comments and strings, every literal syntax and 10^4-digit literals, "
+             "validated by the specification's own lexer. Every input must end in ok / parse_error / empty; panics, "
+             "aborts and time-outs are not behaviours of the specification.",
+        note="Grammar acceptance (which token lists parse) is not specified. Unicode classification is transcribed for "
+             "ASCII and listed ranges; other code points are held to the protocol only. Nesting explored to 3e3 (quick) / "
+             "1e4 (thorough). Decimal literals above about 2e3 digits are judged by outcome only.",
+        technique="TLA+ lexer automaton + TLC exhaustive bounded enumeration with full replay of every string (lex/parse/eval) "
+                  "+ TLC trace validation of seeded fuzz, mutation and literal-rendering traces"),
+    "C16": dict(
+        cat="model_checking", design="DESIGN.md §4 C16",
+        text="Positional notation, decimal / scientific / fraction parsing, hex, RFC 4648 base64, strict UTF-8, chr/ord, "
+             "JSON text, Noulith literal syntax (through the C15 lexer) and integer rendering in base 2/8/10/16 are "
+             "specified as exact functions on code points, bytes and BigNum values. TLC checks every Dec o Enc = id law "
+             "over exhaustive small domains and emits the expected encoding of every case. Each case is replayed with "
+             "integers in small and big representation, comparing the implementation's actual text or bytes with the "
+             "specification's, not only the round trip. A seeded driver covers integers of any size and sign in both "
+             "representations in every base, signed decimal/fraction strings, random byte and Unicode strings and nested "
+             "JSON-shaped values. Gzip is an opaque inverse-pair law over logged pairs.",
+        note="Float text is never compared: JSON and repr floats are re-parsed exactly and must round to the original "
+             "double. Left open: the empty int_radix string, _ separators, sign-then-point decimals, exponents beyond "
+             "+-9999, non-canonical base64, number() on non-integer text.",
+        technique="TLA+ codec specification with TLC-checked inverse-pair theorems + replay of every model case as an "
+                  "independent encoding oracle + TLC trace validation of seeded conversion traces"),
 }
 PENDING = "check not built yet in this round (planned, see DESIGN.md section 4 and 9)"
 ALL = ["C%02d" % i for i in range(1, 18)]
